@@ -7,7 +7,7 @@ use syn::visit::{self, Visit};
 /// builtin methods that mutate their receiver
 pub const MUTATING_METHODS: &[&str] = &["resize", "copy_from_slice", "push", "extend_from_slice", "clear", "truncate", "reverse", "insert", "remove", "push_back", "append", "retain"];
 /// methods that mutate their receiver and yield a value (handled in expression position)
-pub const MUTATING_VALUE_METHODS: &[&str] = &["next", "pop_front", "entry", "get_mut", "pop_first", "retain"];
+pub const MUTATING_VALUE_METHODS: &[&str] = &["next", "pop_front", "entry", "get_mut", "pop_first", "retain", "take"];
 
 pub struct Assigned<'a> {
     /// declared name -> the variable whose parts it may refer into (pattern bindings of a `match` / `if let` /
